@@ -168,6 +168,16 @@ Theorem C16_connections_independent :
     option_map (fun c => run classify handler c (events_for j evs)) (nth_error d j).
 Proof. exact connections_independent. Qed.
 
+(* No stuck state: every event is accepted in every state (step is a total function), and from
+   every reachable state the connection can still end: after stop(), one failing drain and the
+   completion of the handlers in flight, serve() has returned or raised.
+   completes c = one EvComplete per handler in flight. *)
+Theorem C16_never_stuck :
+  forall classify handler (evs : list event),
+    let c := run classify handler conn_init evs in
+    status_of (run classify handler c ([EvStop; EvSendFail] ++ completes c)) <> StUp.
+Proof. exact never_stuck. Qed.
+
 (* ---------- the hypotheses are satisfiable / non-trivial instances ---------- *)
 
 Example C16_example_framing :
